@@ -65,19 +65,22 @@ Section SelectExact.
     unfold pat_ok. rewrite orb_true_iff, String.eqb_eq, anchor_exact. tauto.
   Qed.
 
-  Definition org_of (obj : node) : resid :=
-    match prev_ids_opt obj with Some (x :: _) => x | _ => cur_id obj end.
+  Definition org_of (obj : node) : resid * bool :=
+    match prev_ids_opt obj with
+    | Some (x :: _) => (x, false)
+    | _ => (cur_id obj, cluster_scoped (gvk_of obj))
+    end.
   Definition lsel_true (text : string) (m : list (string * string)) : bool :=
     match lsel text m with Some b => b | None => false end.
 
   (* the specification of Select for one resource *)
   Definition sel_keep (obj : node) : bool :=
-    let org := org_of obj in
+    let org := fst (org_of obj) in
     let cur := cur_id obj in
     let g := gvk_of obj in
     let sg := id_gvk (sel_id s) in
-    (pat_ok (id_ns (sel_id s)) (effective_ns cluster_scoped org) ||
-     pat_ok (id_ns (sel_id s)) (effective_ns cluster_scoped cur)) &&
+    (pat_ok (id_ns (sel_id s)) (effective_ns (snd (org_of obj)) org) ||
+     pat_ok (id_ns (sel_id s)) (effective_ns (cluster_scoped g) cur)) &&
     (pat_ok (id_name (sel_id s)) (id_name org) || pat_ok (id_name (sel_id s)) (id_name cur)) &&
     (pat_ok (g_group sg) (g_group g) && pat_ok (g_version sg) (g_version g) && pat_ok (g_kind sg) (g_kind g)) &&
     lsel_true (sel_lab s) (meta_map "labels" obj) &&
@@ -120,10 +123,10 @@ Section SelectExact.
     rewrite !match_opt_compiled.
     destruct (lsel (sel_lab s) (meta_map "labels" obj)) as [lb|]; [|congruence].
     destruct (lsel (sel_ann s) (meta_map "annotations" obj)) as [ab|]; [|congruence].
-    set (org := match l with x :: _ => x | [] => cur_id obj end).
-    generalize (pat_ok (id_ns (sel_id s)) (effective_ns cluster_scoped org)),
-               (pat_ok (id_ns (sel_id s)) (effective_ns cluster_scoped (cur_id obj))),
-               (pat_ok (id_name (sel_id s)) (id_name org)),
+    set (orgc := match l with x :: _ => (x, false) | [] => (cur_id obj, cluster_scoped (gvk_of obj)) end).
+    generalize (pat_ok (id_ns (sel_id s)) (effective_ns (snd orgc) (fst orgc))),
+               (pat_ok (id_ns (sel_id s)) (effective_ns (cluster_scoped (gvk_of obj)) (cur_id obj))),
+               (pat_ok (id_name (sel_id s)) (id_name (fst orgc))),
                (pat_ok (id_name (sel_id s)) (id_name (cur_id obj))),
                (pat_ok (g_group (id_gvk (sel_id s))) (g_group (gvk_of obj))),
                (pat_ok (g_version (id_gvk (sel_id s))) (g_version (gvk_of obj))),
